@@ -473,7 +473,7 @@ def stepDens (st : DState) : List String → DState × String
 
 def ordOps : OrdOps Float Xo :=
   { nextE := exp1, nextU := fun g => g.next, offsetOf := fun u n => FY.offsetOf (unif01OfU64 u) n,
-    mkGen := fun h c sd => Xo.fromWords h c sd 0 }
+    mkGen := fun h c sd => Xo.seedFromU64 (h ^^^ rotl (c * 0x9e3779b97f4a7c15) 32 ^^^ (sd * 0xbf58476d1ce4e5b9)) }
 
 def stepOrd (st : DState) : List String → DState × String
   | ["new", n, m, l, sd] => match m.toNat?, l.toNat?, u64OfHex sd with
